@@ -104,6 +104,41 @@ def check(ctx):
             plan_arg = ast.Name(id=pl_[0], ctx=ast.Load()) if pl_ else None
         if isinstance(plan_arg, ast.Name):
             pv = plan_arg.id
+            # the plan whose calls are counted is the plan the phase works on: same reaching definitions at both sites
+            from ..cfg import value_sources as _vs
+            for pc in pcalls:
+                pa = arg(pc, 0, "plan")
+                while isinstance(pa, ast.Attribute):
+                    pa = pa.value
+                if isinstance(pa, ast.Name):
+                    def _key(lf):
+                        return tuple(id(x) if isinstance(x, ast.AST) else x for x in lf)
+
+                    def _origins(name, at, depth=0):
+                        """reaching definitions, seen through 'the plan or a private copy of it' (plan.copy(), get_mutable_plan(plan, ...))"""
+                        out_ = set()
+                        for lf in _vs(host, g, name, at, host.module):
+                            e_ = lf[1] if lf[0] == "expr" else None
+                            if isinstance(e_, ast.Call) and depth < 4:
+                                inner = None
+                                if isinstance(e_.func, ast.Attribute) and e_.func.attr == "copy" and isinstance(e_.func.value, ast.Name) and not e_.args:
+                                    inner = e_.func.value
+                                elif e_.args and isinstance(e_.args[0], ast.Name) and e_ in host.own_calls() and (fs_ := m.callee_funcs(host, e_)) \
+                                        and all(roles.is_mutable_plan_func(m, f_) for f_ in fs_):
+                                    inner = e_.args[0]
+                                if inner is not None:
+                                    out_ |= _origins(inner.id, e_, depth + 1)
+                                    continue
+                            out_.add(_key(lf))
+                        return out_
+                    src_t = _origins(pv, tcalls[0])
+                    src_p = _origins(pa.id, pc)
+                    same = src_t == src_p
+                    ctx.ob("C15.P5", f"{host.short}/totals-count-the-plan-of-the-phase", same, loc(host, tcalls[0]),
+                           f"the totals are counted on the plan that {what} works on (same reaching definitions)" if same else
+                           f"the totals are counted on `{pv}`, {what} works on `{pa.id}`, and these are not the same value on every path (e.g. after a "
+                           f"transform_physical that returns a new plan): scopes are reported running without an announced total and completed differs from total",
+                           norm(tcalls[0])[:80])
             between = set()
             for t_ in tn:
                 between |= g.reach([t_], avoid={pn for pc in pcalls for pn in g.of_stmt_containing(pc, host.module)})
@@ -209,6 +244,8 @@ def check(ctx):
     from .stalerules import rule_stale_totals
     ctx.run(lambda c_: rule_stale_totals(c_, "C15.P4", rr))
     from .extra import rule_error_path_total
+    from .evalrules import rule_run_callback
+    ctx.run(lambda c_: rule_run_callback(c_, rr, rid_bracket="C15.P3"))
     ctx.run(rule_error_path_total, "C15.P3")
     ctx.run(E.rule_atomic_counter, "C15.P3", er)
     ctx.run(E.rule_one_callback_per_dequeue, "C15.P3", er)
